@@ -14,6 +14,9 @@ SPAN = {"years": 86400 * 365 * 40, "months": 86400 * 30 * 50, "weeks": 86400 * 7
 
 
 def drive(ctx):
+    from .. import gr
+
+    gr.replay(ctx)          # behaviours of the Session state machine: queries on values with a history
     q = ctx.quick()
     rnd = ctx.rnd
     n = 0
